@@ -117,6 +117,7 @@ func (g GLin) Subst(m map[string]string) GLin {
 // LinX extracts linear expressions from SSA values.
 type LinX struct {
 	depth int
+	Names map[ssa.Value]string // custom symbols for specific SSA values (decoded fields)
 }
 
 func conj(a, b string) string {
@@ -286,6 +287,11 @@ func (lx *LinX) Lin(v ssa.Value) GLin {
 	defer func() { lx.depth-- }()
 	if lx.depth > 24 {
 		return GLin{{L: linTerm(Path(v))}}
+	}
+	if lx.Names != nil {
+		if n, ok := lx.Names[v]; ok {
+			return GLin{{L: linTerm(n)}}
+		}
 	}
 	switch x := v.(type) {
 	case *ssa.Const:
